@@ -103,9 +103,13 @@ func NewSigner(alg Algorithm, key crypto.Signer) (Signer, error) {
 }
 
 // signerPublicKey returns the public key of key, or nil for an
-// ed25519.PrivateKey of the wrong length (whose Public method panics).
+// ed25519.PrivateKey of the wrong length (whose Public method panics),
+// given by value or by pointer.
 func signerPublicKey(key crypto.Signer) crypto.PublicKey {
 	if sk, ok := key.(ed25519.PrivateKey); ok && len(sk) != ed25519.PrivateKeySize {
+		return nil
+	}
+	if sk, ok := key.(*ed25519.PrivateKey); ok && (sk == nil || len(*sk) != ed25519.PrivateKeySize) {
 		return nil
 	}
 	return key.Public()
